@@ -177,6 +177,12 @@ def g_num(rng, d, extra=()):
     pool = NUMS + list(extra)
     if d <= 0 or r < 0.3:
         return ["var", rng.choice(pool)] if rng.random() < 0.8 else ["num", rng.choice([2, 0.5, 3])]
+    if r < 0.34:
+        # a term with an absorbing constant, written out ('0*x', '0/x'): whatever becomes of it, the declared
+        # sets must cover what is read and survive the identity mapping
+        inner = ["var", rng.choice(pool)]
+        return rng.choice([["*", ["num", 0], inner], ["*", inner, ["num", 0]], ["/", ["num", 0], inner],
+                           ["+", ["*", ["num", 0], inner], g_num(rng, d - 1, extra)]])
     if r < 0.5:
         return [rng.choice(["+", "*"]), g_num(rng, d - 1, extra), g_num(rng, d - 1, extra)]
     if r < 0.53:
